@@ -501,7 +501,7 @@ static void build_cells(bool thorough)
 		}
 	// 2b. channel switching with three parties (r-request / r-answer path reachable), FIFO on and off.  The full BFS is feasible
 	//     for program 0 only (110 k states, 600 k transitions; thorough); all programs are explored deviation-bounded under every
-	//     single and ordered pair of demoted links (served only when nothing else is pending - this is what makes a party ask for the payload), d <= 2 (4) for single links and d <= 1 (3) for pairs
+	//     single and ordered pair of demoted links (served only when nothing else is pending - this is what makes a party ask for the payload), d <= 2 (3) for single links and d <= 1 (3) for pairs
 	for (int v = 0; v < NCHAN3; v++)
 		for (int f = 1; f >= 0; f--)
 		{
@@ -510,7 +510,7 @@ static void build_cells(bool thorough)
 				std::string id = "chan3:variant=" + str(v) + ",fifo=" + str(f);
 				cells.push_back(Cell{id, [=]() { Cfg c = chan3_cfg(v, f != 0); return bfs(c, id, 6000000, 10000); }});
 			}
-			int bound = thorough ? 4 : 2;
+			int bound = thorough ? 3 : 2;
 			std::string id = "chan3prio:variant=" + str(v) + ",fifo=" + str(f) + ",d<=" + str(bound);
 			cells.push_back(Cell{id, [=]() {
 				bool ok = true;
